@@ -5,6 +5,7 @@
 package flv
 
 import (
+	"github.com/cnotch/ipchub/utils/simhook"
 	"fmt"
 	"runtime/debug"
 	"time"
@@ -109,8 +110,11 @@ func (muxer *Muxer) process() {
 
 	var packSequenceHeader bool
 
+	simhook.Y("flvmux.start")
 	for !muxer.closed {
+		simhook.Y("flvmux.beforePop")
 		f := muxer.recvQueue.Pop()
+		simhook.Y("flvmux.afterPop")
 		if f == nil {
 			if !muxer.closed {
 				muxer.logger.Warn("flvmuxer:receive nil frame")
